@@ -1,11 +1,13 @@
 import RreModel.Proto
-import RreModel.C16.Spec
+import RreModel.C16.Spec2
 /-
 Driver for C16 (line protocol documented in harness/src/bin/c16.rs).
   drv_c16 model   : case        ↦ the observation the model predicts
   drv_c16 oracle  : case | obs  ↦ `ok <tags>` / `fail <clause>`  (Spec predicates on the implementation's observations)
-Floats: bit pattern + the `Debug` text Rust printed for it (used only to render beta keys); `==`, NaN
-test and zero test are done on the IEEE double with that bit pattern.
+Floats: bit pattern + the `Debug` text Rust printed for it when the case was generated (`Fmt.fmtFloat`; the contract
+`FmtLaws` is checked on the floats of every case: oracle clause `float-contract`); `==`, NaN test and zero test are done
+on the IEEE double with that bit pattern. Key texts are rendered by the MODEL (`C16.debugKey`, `C16.alphaKey`,
+`C16.nodeKeyText`) and compared with what the implementation printed (`kt=`, `ik=`, `nk=`).
 -/
 open Proto C16
 
@@ -83,36 +85,63 @@ def parsePair (s : String) : Option (List Nat × List Nat) :=
   | [a, b] => do pure (← parseNats? a, ← parseNats? b)
   | _ => none
 
-/-! ### `Debug` text of a `FactValue` (the beta key) -/
-def dbgStr (s : String) : String :=
-  "\"" ++ String.join (s.toList.map fun c => if c = '"' then "\\\"" else if c = '\\' then "\\\\" else String.singleton c) ++ "\""
+def field (obs : List String) (name : String) : Option String :=
+  (obs.find? (·.startsWith (name ++ "="))).map fun t => (t.drop (name.length + 1)).toString
 
-partial def render : V → String
-  | .str s => "String(" ++ dbgStr s ++ ")"
-  | .int i => s!"Integer({i})"
-  | .flt f => "Float(" ++ f.text ++ ")"
-  | .bool b => if b then "Boolean(true)" else "Boolean(false)"
-  | .arr xs => "Array([" ++ ", ".intercalate (xs.map render) ++ "])"
-  | .null => "Null"
+/-! ### `Debug` text of a `FactValue`: the model's renderer, instantiated -/
+
+/-- `is_printable(c) && !is_grapheme_extended(c)`: exact for ASCII; for the rest of Unicode the table holds the
+printable code points the generator draws from (every other non-ASCII character it draws is escaped by Rust) -/
+def printableD (c : Char) : Bool :=
+  let n := c.toNat
+  if n < 128 then decide (32 ≤ n ∧ n ≤ 126)
+  else [0xe9, 0xdf, 0xfc, 0x3a9, 0x416, 0x4e2d, 0x3042, 0xac00, 0x2200, 0x1f600, 0x1d11e].contains n
+
+def Rd : Fmt DFloat := { printable := printableD, fmtFloat := fun f => f.text.toList }
+
+def render (v : V) : String := debugKey Rd v
+def aKey : V → Option String := alphaKey dops Rd
+
+mutual
+partial def floatsOf : V → List DFloat
+  | .flt f => [f]
+  | .arr xs => xs.flatMap floatsOf
+  | _ => []
+end
+
+def hexList (xs : List String) : String := if xs.isEmpty then "-" else ",".intercalate (xs.map hexOfString)
+def ktField (vs : List V) : String := "kt=" ++ hexList (vs.map render)
+def factsVals (f : Fs) : List V := f.map (·.2)
+
+/-- the implementation's `kt=` trailer against the model's text, and the float contract on the case's floats -/
+def ktCheck (vs : List V) (obs : List String) : Option String :=
+  let fl := (vs.flatMap floatsOf).eraseDups
+  if !fmtContractOk dops Rd fl then some "fail float-contract"
+  else match obs.find? (·.startsWith "kt=") with
+    | none => some "fail key-text-missing"
+    | some t =>
+      let impl := if t = "kt=-" then [] else ((t.drop 3).toString.splitOn ",").map (fun h => (hexString? h).getD "?")
+      if impl.length != vs.length then some "fail key-text-shape"
+      else if (vs.zip impl).all (fun (v, t) => keyTextOk Rd v t) then none else some "fail key-text-vs-model"
 
 /-! ### A: alpha -/
 
 /-- ops (T<n> expanded to n tracked calls) and, per observed answer, how many model answers it stands for -/
-def parseAlpha (toks : List String) : Option (List (AOp DFloat) × List Nat) :=
-  toks.foldlM (init := ([], [])) fun (ops, reps) t =>
+def parseAlpha (toks : List String) : Option (List (AOp DFloat) × List Nat × List V) :=
+  toks.foldlM (init := ([], [], [])) fun (ops, reps, vals) t =>
     match splitN t 3 with
-    | ["I", f] => (parseFacts f).map fun f => (ops ++ [.insert f], reps)
-    | ["C", φ] => some (ops ++ [.create φ], reps)
-    | ["D", φ] => some (ops ++ [.drop φ], reps)
-    | ["U"] => some (ops ++ [.autoTune], reps)
-    | ["X"] => some (ops ++ [.clear], reps)
-    | ["F", φ, v] => (parseVal v).map fun v => (ops ++ [.filter φ v], reps ++ [1])
+    | ["I", f] => (parseFacts f).map fun f => (ops ++ [.insert f], reps, vals ++ factsVals f)
+    | ["C", φ] => some (ops ++ [.create φ], reps, vals)
+    | ["D", φ] => some (ops ++ [.drop φ], reps, vals)
+    | ["U"] => some (ops ++ [.autoTune], reps, vals)
+    | ["X"] => some (ops ++ [.clear], reps, vals)
+    | ["F", φ, v] => (parseVal v).map fun v => (ops ++ [.filter φ v], reps ++ [1], vals ++ [v])
     | [tn, φ, v] =>
       if tn.startsWith "T" then do
         let n ← (tn.drop 1).toString.toNat?
         let n := max n 1
         let v ← parseVal v
-        pure (ops ++ List.replicate n (.tracked φ v), reps ++ [n])
+        pure (ops ++ List.replicate n (.tracked φ v), reps ++ [n], vals ++ [v])
       else none
     | _ => none
 
@@ -128,28 +157,30 @@ def collapse : List Nat → List (List Nat) → Option (List (List Nat))
 def expand (reps : List Nat) (xs : List (List Nat)) : List (List Nat) :=
   (reps.zip xs).flatMap fun (n, x) => List.replicate n x
 
-def alphaTail (s : AState DFloat (List (Tok DFloat))) : List String :=
+def alphaTail (s : AState DFloat String) : List String :=
   [s!"n={s.facts.length}", "ix=" ++ showNames s.indexes.keys]
 
 def modelAlpha (toks : List String) : String :=
   match parseAlpha toks with
   | none => "bad-case"
-  | some (ops, reps) =>
-    let key := canonKey dops
+  | some (ops, reps, vals) =>
+    let key := aKey
+    let st := aStats key {} {} ops
     match collapse reps (aTrace dops key {} ops), collapse reps (aExpected dops [] ops) with
-    | some got, some lin => joinSp (showLists (got.zip lin) ++ alphaTail (aRun key ops))
+    | some got, some lin =>
+      joinSp (showLists (got.zip lin) ++ alphaTail (aRun key ops) ++ [s!"st={st.total},{st.indexed},{st.linear}", ktField vals])
     | _, _ => "model-unstable"
 
 /-- tags: was some filter answered through an index, and non-empty -/
 def alphaTags (ops : List (AOp DFloat)) : List String :=
-  let key := canonKey dops
-  let (_, viaIx, hit, special) := ops.foldl (init := (({} : AState DFloat (List (Tok DFloat))), false, false, false))
+  let key := aKey
+  let (_, viaIx, hit, special) := ops.foldl (init := (({} : AState DFloat String), false, false, false))
     fun (s, a, b, c) op =>
       let (a', b', c') := match op with
         | .filter φ v | .tracked φ v =>
           let ixd := s.indexes.contains φ
           let r := aFilter dops key s φ v
-          (a || ixd, b || (ixd && !r.isEmpty), c || (ixd && (canonKey dops v != rawKey v)))
+          (a || ixd, b || (ixd && !r.isEmpty), c || (ixd && (aKey v != some (render v))))
         | _ => (a, b, c)
       (aStep key s op, a', b', c')
   ["alpha"] ++ (if viaIx then ["a_indexed"] else ["a_linear_only"]) ++ (if hit then ["a_index_hit", "nontrivial"] else [])
@@ -159,59 +190,88 @@ def alphaTags (ops : List (AOp DFloat)) : List String :=
 def oracleAlpha (toks : List String) (obs : List String) : String :=
   match parseAlpha toks with
   | none => "bad-input"
-  | some (ops, reps) =>
+  | some (ops, reps, vals) =>
     let n := reps.length
-    if obs.length != n + 2 then "fail alpha-shape" else
+    if obs.length != n + 4 then "fail alpha-shape" else
     match (obs.take n).mapM parsePair with
     | none => "fail alpha-parse"
     | some prs =>
       let got := expand reps (prs.map (·.1))
       let lin := expand reps (prs.map (·.2))
       if got != lin then "fail alpha-index-vs-linear"
-      else if alphaOk dops ops got lin then joinSp ("ok" :: alphaTags ops)
-      else "fail alpha-vs-plain"
+      else if !alphaOk dops ops got lin then "fail alpha-vs-plain"
+      else match ktCheck vals obs with
+      | some e => e
+      | none =>
+        -- the counters: every filter_tracked since the last clear counted once, as indexed or as linear
+        match (field obs "st").bind parseNats? with
+        | some [t, i, l] =>
+          if statsOk { total := t, indexed := i, linear := l } (trackedSinceClear 0 ops) then
+            joinSp ("ok" :: alphaTags ops ++ (if t > 0 then ["a_stats"] else []))
+          else "fail alpha-stats"
+        | _ => "fail alpha-stats-shape"
 
 /-! ### B: beta -/
 
-def parseBeta (toks : List String) : Option (String × List (BOp DFloat)) :=
+/-- join field, ops, the values of the case in order, and per lookup the value it was made with (`L:v`) -/
+def parseBeta (toks : List String) : Option (String × List (BOp DFloat) × List V × List (Option V)) :=
   match toks with
   | [] => none
   | jk :: rest => do
-    let ops ← rest.mapM fun t =>
-      match splitN t 3 with
-      | ["A", i, f] => do pure (BOp.add (← parseFacts f) (← i.toNat?))
-      | ["R", i, f] => do pure (BOp.remove (← parseFacts f) (← i.toNat?))
-      | ["L", "v", v] => (parseVal v).map fun v => BOp.lookup (render v)
-      | ["L", "t", h] => (hexString? h).map BOp.lookup
-      | _ => none
-    pure (jk, ops)
+    let (ops, vals, looks) ← rest.foldlM (init := (([] : List (BOp DFloat)), ([] : List V), ([] : List (Option V))))
+      fun (ops, vals, looks) t =>
+        match splitN t 3 with
+        | ["A", i, f] => do
+          let f ← parseFacts f
+          pure (ops ++ [BOp.add f (← i.toNat?)], vals ++ factsVals f, looks)
+        | ["R", i, f] => do
+          let f ← parseFacts f
+          pure (ops ++ [BOp.remove f (← i.toNat?)], vals ++ factsVals f, looks)
+        | ["L", "v", v] => (parseVal v).map fun v => (ops ++ [BOp.lookup (render v)], vals ++ [v], looks ++ [some v])
+        | ["L", "t", h] => (hexString? h).map fun k => (ops ++ [BOp.lookup k], vals, looks ++ [none])
+        | _ => none
+    pure (jk, ops, vals, looks)
+
+/-- the plain computation ON VALUES for the lookups made with a value (`bLiveV`: no key text involved) -/
+def betaExpectedV (jk : String) : List (BOp DFloat) → List (BOp DFloat) → List (Option V) → List (List Nat)
+  | _, [], _ => []
+  | past, .lookup k :: ops, lv :: lvs =>
+    (match lv with
+     | some v => bLiveV Rd jk v past
+     | none => bLive render jk k past) :: betaExpectedV jk (past ++ [.lookup k]) ops lvs
+  | past, .lookup k :: ops, [] => bLive render jk k past :: betaExpectedV jk (past ++ [.lookup k]) ops []
+  | past, op :: ops, lvs => betaExpectedV jk (past ++ [op]) ops lvs
 
 def modelBeta (toks : List String) : String :=
   match parseBeta toks with
   | none => "bad-case"
-  | some (jk, ops) =>
+  | some (jk, ops, vals, _) =>
     let got := bTrace render jk {} ops
     let ref := bExpected render jk [] ops
-    joinSp (showLists (got.zip ref) ++ [s!"size={bSize (bRun render jk {} ops)}"])
+    joinSp (showLists (got.zip ref) ++ [s!"size={bSize (bRun render jk {} ops)}", ktField vals])
 
 def oracleBeta (toks : List String) (obs : List String) : String :=
   match parseBeta toks with
   | none => "bad-input"
-  | some (jk, ops) =>
+  | some (jk, ops, vals, looks) =>
     let n := (ops.filter fun | .lookup _ => true | _ => false).length
-    if obs.length != n + 1 then "fail beta-shape" else
+    if obs.length != n + 2 then "fail beta-shape" else
     match (obs.take n).mapM parsePair with
     | none => "fail beta-parse"
     | some prs =>
       let got := prs.map (·.1)
       let ref := prs.map (·.2)
       if got != ref then "fail beta-lookup-vs-live"
-      else if betaOk render jk ops got ref then
+      else if !betaOk render jk ops got ref then "fail beta-vs-plain"
+      else if got != betaExpectedV jk [] ops looks then "fail beta-vs-plain-by-value"
+      else match ktCheck vals obs with
+      | some e => e
+      | none =>
         let removes := (ops.filter fun | .remove _ _ => true | _ => false).length
         joinSp (["ok", "beta"] ++ (if got.any (!·.isEmpty) then ["b_hit", "nontrivial"] else [])
           ++ (if removes > 0 then ["b_remove"] else []) ++ (if got.any (·.length ≥ 2) then ["b_multi"] else [])
-          ++ (if got.any (·.length > 32) then ["b_hot_gt32"] else []))
-      else "fail beta-vs-plain"
+          ++ (if got.any (·.length > 32) then ["b_hot_gt32"] else [])
+          ++ (if vals.any (fun v => (render v).any (fun c => c.toNat ≥ 128 || c = '\\')) then ["b_escaped_or_nonascii_key"] else []))
 
 /-! ### M: memo -/
 
@@ -244,11 +304,14 @@ partial def decNode : List String → Option (Node DFloat × List String)
 
 abbrev MN := String × Node DFloat
 
+/-- the key text of a node: the model's rendering of the real node the case describes -/
+def nodeText (n : MN) : String := nodeKeyText printableD n.2.toRaw
+
 structure MemoCase where
   ops : List (MOp MN DFloat)
 
-def parseMemo (toks : List String) : Option (List (MOp MN DFloat)) := do
-  let (_, _, ops) ← toks.foldlM (init := (([] : List MN), ([] : List Fs), ([] : List (MOp MN DFloat))))
+def parseMemo (toks : List String) : Option (List (MOp MN DFloat) × List MN × List Fs) := do
+  let (nodes, sets, ops) ← toks.foldlM (init := (([] : List MN), ([] : List Fs), ([] : List (MOp MN DFloat))))
     fun (nodes, sets, ops) t =>
       if t.startsWith "N:" then
         let body := (t.drop 2).toString
@@ -265,32 +328,32 @@ def parseMemo (toks : List String) : Option (List (MOp MN DFloat)) := do
         | _ => none
       else if t = "K" then some (nodes, sets, ops ++ [.clear])
       else none
-  pure ops
+  pure (ops, nodes, sets)
 
 def showBits (bs : List Bool) : String :=
   if bs.isEmpty then "-" else String.ofList (bs.map fun b => if b then '1' else '0')
 def parseBits (s : String) : List Bool := if s = "-" then [] else s.toList.map (· == '1')
 
-def mKey : MN → Fs → String × List (Tok DFloat) := memoKey (·.1)
+/-- the memo key of the code: (Debug text of the node, typed pre-image of the facts) -/
+def mKey : MN → Fs → String × List (Tok DFloat) := memoKey nodeText
 def mEv : MN → Fs → Bool := fun n f => evalNode dops n.2 f
 
 def modelMemo (toks : List String) : String :=
   match parseMemo toks with
   | none => "bad-case"
-  | some ops =>
+  | some (ops, nodes, sets) =>
     let s := mRun mKey mEv ops
-    s!"d={showBits (directTrace mEv ops)} m={showBits (mTrace mKey mEv {} ops)} h={showNats (mHits mKey mEv {} ops)} miss={s.misses} size={s.cache.length}"
-
-def field (obs : List String) (name : String) : Option String :=
-  (obs.find? (·.startsWith (name ++ "="))).map fun t => (t.drop (name.length + 1)).toString
+    s!"d={showBits (directTrace mEv ops)} m={showBits (mTrace mKey mEv {} ops)} h={showNats (mHits mKey mEv {} ops)} miss={s.misses} size={s.cache.length} nk={hexList (nodes.map nodeText)} {ktField (sets.flatMap factsVals)}"
 
 def oracleMemo (toks : List String) (obs : List String) : String :=
   match parseMemo toks, field obs "d", field obs "m", field obs "h" with
-  | some ops, some d, some m, some h =>
+  | some (ops, nodes, sets), some d, some m, some h =>
     let d := parseBits d
     let m := parseBits m
     let evals := (ops.filter fun | .eval _ _ => true | _ => false).length
     if d.length != evals || m.length != evals then "fail memo-shape"
+    else if field obs "nk" != some (hexList (nodes.map nodeText)) then "fail node-key-text-vs-model"
+    else if let some e := ktCheck (sets.flatMap factsVals) obs then e
     else if memoOk d m then
       let hits := (parseNats? h).getD []
       let anyHit := hits.any (· > 0)
@@ -305,6 +368,128 @@ def oracleMemo (toks : List String) (obs : List String) : String :=
         ++ (if multi then ["m_multifield_or_contains"] else []))
     else "fail memo-vs-direct"
   | _, _, _, _ => "bad-input"
+
+/-! ### V: the key texts themselves; K: CompactAlphaMemory -/
+
+def ikField (vs : List V) : String :=
+  "ik=" ++ (if vs.isEmpty then "-" else ",".intercalate (vs.map fun v => match aKey v with | some k => hexOfString k | none => "~"))
+
+def modelValues (toks : List String) : String :=
+  match toks.mapM parseVal with
+  | none => "bad-case"
+  | some vs => joinSp [ikField vs, ktField vs]
+
+def allPairs {α : Type} (xs : List α) : List (α × α) := xs.flatMap fun a => xs.map fun b => (a, b)
+
+def oracleValues (toks : List String) (obs : List String) : String :=
+  match toks.mapM parseVal, field obs "ik", field obs "kt" with
+  | some vs, some ik, some kt =>
+    match ktCheck vs obs with
+    | some e => e
+    | none =>
+      let texts := if kt = "-" then [] else (kt.splitOn ",").map (fun h => (hexString? h).getD "?")
+      let keys : List (Option String) := if ik = "-" then [] else (ik.splitOn ",").map (fun h => if h = "~" then none else hexString? h)
+      if keys.length != vs.length || (ik.splitOn ",").any (·.startsWith "!") then "fail index-key-shape"
+      -- the property's letter on the REAL texts: two values print alike iff they are the same value (floats: same text)
+      else if !(allPairs (vs.zip texts)).all (fun ((v, t), (w, u)) => (t == u) == Val.sameText Rd v w) then "fail key-text-not-injective"
+      -- … and on the REAL index keys: no key iff not == to itself; same key iff ==
+      else if !(vs.zip keys).all (fun (v, k) => k.isNone == !(Val.beq dops v v)) then "fail index-key-none-vs-eq"
+      else if !(allPairs (vs.zip keys)).all (fun ((v, k), (w, l)) => k.isNone || l.isNone || ((k == l) == Val.beq dops v w)) then "fail index-key-vs-eq"
+      else if keys != vs.map aKey then "fail index-key-vs-model"
+      else
+        let esc := texts.any (fun t => t.any (fun c => c = '\\' || c.toNat ≥ 128))
+        let nested := vs.any fun | .arr xs => xs.any (fun | .arr _ => true | _ => false) | _ => false
+        let canonDiff := (vs.zip keys).any (fun (v, k) => k != some (render v))
+        joinSp (["ok", "values", "nontrivial"] ++ (if esc then ["v_escape_or_nonascii"] else []) ++ (if nested then ["v_nested"] else [])
+          ++ (if canonDiff then ["v_canonicalised_key"] else []) ++ [s!"v_n{vs.length.min 6}"])
+  | _, _, _ => "bad-input"
+
+def parseCompact (toks : List String) : Option (List (KOp DFloat) × List V) :=
+  toks.foldlM (init := ([], [])) fun (ops, vals) t =>
+    match splitN t 2 with
+    | ["A", f] => (parseFacts f).map fun f => (ops ++ [KOp.add f], vals ++ factsVals f)
+    | ["R", f] => (parseFacts f).map fun f => (ops ++ [KOp.remove f], vals ++ factsVals f)
+    | ["C", f] => (parseFacts f).map fun f => (ops ++ [KOp.contains f], vals ++ factsVals f)
+    | _ => none
+
+def modelCompact (toks : List String) : String :=
+  match parseCompact toks with
+  | none => "bad-case"
+  | some (ops, vals) =>
+    let s := kRun Rd {} ops
+    joinSp [s!"r={showBits (kTrace Rd {} ops)}", s!"len={kLen s}", s!"refs={kTotal s}", ktField vals]
+
+/-- the distinct fact sets of a history (up to `Facts.sameText`) -/
+def distinctFacts (ops : List (KOp DFloat)) : List Fs :=
+  (ops.map fun | .add f => f | .remove f => f | .contains f => f).foldl
+    (fun acc f => if acc.any (fun g => Facts.sameText Rd g f) then acc else acc ++ [f]) []
+
+def oracleCompact (toks : List String) (obs : List String) : String :=
+  match parseCompact toks, field obs "r", (field obs "len").bind (·.toNat?), (field obs "refs").bind (·.toNat?) with
+  | some (ops, vals), some r, some len, some refs =>
+    let counts := (distinctFacts ops).map fun f => kCount Rd f 0 ops
+    if parseBits r != kExpected Rd [] ops then "fail compact-vs-counting"
+    else if len != (counts.filter (· > 0)).length || refs != counts.foldl (· + ·) 0 then "fail compact-len-refs"
+    else match ktCheck vals obs with
+    | some e => e
+    | none =>
+      joinSp (["ok", "compact"] ++ (if (parseBits r).any id then ["k_true", "nontrivial"] else [])
+        ++ (if counts.any (· ≥ 2) then ["k_shared"] else []) ++ (if (distinctFacts ops).length ≥ 3 then ["k_3sets"] else []))
+  | _, _, _, _ => "bad-input"
+
+/-! ### N: NodeSharingRegistry -/
+
+def parsePat (t : String) : Option Pat :=
+  match t.splitOn "," with
+  | [a, b, c] => do pure (← hexString? a, ← hexString? b, ← hexString? c)
+  | _ => none
+
+def parseRegistry (toks : List String) : Option (List NOp) :=
+  toks.mapM fun t =>
+    match splitN t 3 with
+    | ["G", r, p] => do pure (NOp.register (← parsePat p) (← r.toNat?))
+    | ["U", r] => r.toNat?.map NOp.unregister
+    | ["Q", p] => (parsePat p).map NOp.get
+    | _ => none
+
+def showNode : Option (List Nat) → String
+  | none => "none"
+  | some rs => ".".intercalate (rs.map toString) ++ s!"/{rs.length}"
+
+def modelRegistry (toks : List String) : String :=
+  match parseRegistry toks with
+  | none => "bad-case"
+  | some ops =>
+    let s := nRun {} ops
+    joinSp ((nTrace {} ops).map showNode ++ [s!"stats={s.total},{s.nodes.length},{s.shared}"])
+
+/-- the statistics read off the history: registrations, patterns with a live rule, registrations that met a live node -/
+def registryStats (ops : List NOp) : Nat × Nat × Nat :=
+  let regs := ops.filterMap fun | .register p _ => some p | _ => none
+  let pats := regs.eraseDups
+  let unique := (pats.filter fun p => !(nLive p [] ops).isEmpty).length
+  let (_, shared) := ops.foldl (init := (([] : List NOp), 0)) fun (past, n) op =>
+    (past ++ [op], match op with
+      | .register p _ => if (nLive p [] past).isEmpty then n else n + 1
+      | _ => n)
+  (regs.length, unique, shared)
+
+def oracleRegistry (toks : List String) (obs : List String) : String :=
+  match parseRegistry toks with
+  | none => "bad-input"
+  | some ops =>
+    let n := (ops.filter fun | .unregister _ => false | _ => true).length
+    if obs.length != n + 1 then "fail registry-shape"
+    -- the shared node of a pattern lists exactly the live rules of the pattern, ref_count is their number
+    else if obs.take n != (nExpected [] ops).map showNode then "fail registry-vs-live"
+    else
+      let (t, u, sh) := registryStats ops
+      if field obs "stats" != some s!"{t},{u},{sh}" then "fail registry-stats"
+      else
+        let ex := nExpected [] ops
+        joinSp (["ok", "registry"] ++ (if ex.any (fun | some rs => rs.length ≥ 2 | none => false) then ["n_shared", "nontrivial"] else [])
+          ++ (if ops.any (fun | .unregister _ => true | _ => false) then ["n_unregister"] else [])
+          ++ (if ex.any (·.isNone) then ["n_none"] else []))
 
 /-! ### C / E: conclusion index -/
 
@@ -411,6 +596,9 @@ def modelLine (line : String) : String :=
   | "A" :: r => modelAlpha r
   | "B" :: r => modelBeta r
   | "M" :: r => modelMemo r
+  | "K" :: r => modelCompact r
+  | "N" :: r => modelRegistry r
+  | "V" :: r => modelValues r
   | "C" :: r => modelConcl r
   | "E" :: r => modelEngine r
   | _ => "bad-case"
@@ -423,6 +611,9 @@ def oracleLine (line : String) : String :=
     | "A" :: r => oracleAlpha r obs
     | "B" :: r => oracleBeta r obs
     | "M" :: r => oracleMemo r obs
+    | "K" :: r => oracleCompact r obs
+    | "N" :: r => oracleRegistry r obs
+    | "V" :: r => oracleValues r obs
     | "C" :: r => oracleConcl r obs
     | "E" :: r => oracleEngine r obs
     | _ => "bad-input"
